@@ -1,8 +1,9 @@
 import ZV.Model.C01
+import ZV.Model.C01Ec
 /-! line protocol for C01 (see go/props/c01/c01.go for the Go side of every sub-op):
     tl <s|p> <hex> <off> | b128 <hex> <off> | il <a> <b> <c> | seqof <s|p> <hex> | cba <hex> | cbe <hex> |
     cblp <n> <hex> | sst <hex> <bits> | crlset <0|1> <hex> | onecrle <desc> | edkey <s|p> <e|x> <keylen> <siglen> |
-    rsapub <N|nil> <E|nil> <siglen> <fill> <msglen> -/
+    rsapub <N|nil> <E|nil> <siglen> <fill> <msglen> | ecpriv <version> <curve index> <private key hex> -/
 namespace ZV.C01
 
 def showTL (r : Res (TL × Nat)) : String :=
@@ -103,6 +104,14 @@ def handle (args : List String) : String :=
       | .err => "err"
       | .panic => "panic"
     | none => "bad-args"
+  | ["ecpriv", ver, curve, hex] =>
+    match ver.toNat?, curve.toNat?, ofHex hex with
+    | some v, some c, some pk =>
+      match ecPrivParse v c pk with
+      | .ok (k, buf) => s!"ok {k} {buf.length}"
+      | .err => "err"
+      | .panic => "panic"
+    | _, _, _ => "bad-args"
   | ["crlset", hdrok, hex] =>
     match ofHex hex with
     | some bs =>
